@@ -469,17 +469,21 @@ impl PartialEq for Epoch {
 
 impl PartialOrd for Epoch {
     fn partial_cmp(&self, other: &Self) -> Option<Ordering> {
-        Some(
-            self.duration
-                .cmp(&other.to_time_scale(self.time_scale).duration),
-        )
+        Some(self.cmp(other))
     }
 }
 
 impl Ord for Epoch {
     fn cmp(&self, other: &Self) -> Ordering {
-        self.duration
-            .cmp(&other.to_time_scale(self.time_scale).duration)
+        // Like for the equality, convert the time scale with leap seconds into the one without.
+        if self.time_scale.uses_leap_seconds() && !other.time_scale.uses_leap_seconds() {
+            self.to_time_scale(other.time_scale)
+                .duration
+                .cmp(&other.duration)
+        } else {
+            self.duration
+                .cmp(&other.to_time_scale(self.time_scale).duration)
+        }
     }
 }
 
